@@ -88,9 +88,14 @@ def run(ctx):
         sweep.buffered(ctx, 'C15.R1', skip_files=('group.rs', 'report.rs', 'dedupe.rs', 'reflink.rs', 'lock.rs', 'main.rs'))
 
 
+def _no_closure_numbers(x):
+    return re.sub(r'closure#\d+', 'closure#N', x)
+
+
 def exception_for(bpath, cpath):
+    # exceptions name "a closure of f", not its number: numbers shift when another closure is added to the function
     for brx, crx, why in EXC:
-        if re.search(brx, bpath) and re.search(crx, cpath):
+        if re.search(_no_closure_numbers(brx).replace('closure#N', r'closure#\d+'), bpath) and re.search(crx, cpath):
             return why
     return None
 
@@ -245,7 +250,7 @@ def r3(ctx, lib, cg):
             if not re.search(r'io::Error$|nix::errno::Errno$|error::Error$', et):
                 continue
             n += 1
-            exc = [w for brx, crx, w in EXC_R3 if re.search(brx, b.path) and re.search(crx, c.path)]
+            exc = [w for brx, crx, w in EXC_R3 if re.search(_no_closure_numbers(brx).replace('closure#N', r'closure#\d+'), b.path) and re.search(crx, c.path)]
             key = '%s|%s' % (b.path, c.path.rsplit('::', 1)[-1])
             if exc:
                 ctx.ok(rule, key, c.where(), 'named exception: ' + exc[0])
